@@ -2740,7 +2740,8 @@ impl SubRule {
     }
 
     fn match_seg_length(&self, word: &Word, length: &[Option<ModKind>; 2], pos: &SegPos) -> Result<bool, RuleRuntimeError> {
-        let seg_length = word.seg_length_at(*pos);
+        // the length of the segment `pos` belongs to, also when a scan that moves copy by copy has landed on one of its later copies
+        let seg_length = word.seg_length_around(*pos);
         // +/- long
         if let Some(len) = length[0] {
             match len {
